@@ -775,11 +775,11 @@ Proof.
   induction parts as [|p r IH]; [reflexivity|]. destruct r as [|q r'].
   - cbn. lia.
   - change (jjoin (p :: q :: r')) with (p ++ 44%N :: jjoin (q :: r')). rewrite app_length. cbn [length] in *.
-    rewrite IH. cbn [map list_sum length Nat.pred]. Show. lia.
+    rewrite IH. unfold list_sum. cbn [map fold_right length Nat.pred]. lia.
 Qed.
 
 Lemma list_sum_perm l l' : Permutation l l' -> list_sum l = list_sum l'.
-Proof. induction 1; cbn [list_sum]; lia. Qed.
+Proof. induction 1; unfold list_sum in *; cbn [fold_right] in *; lia. Qed.
 
 Section Fuel.
   Variable ff : N -> bytes.
@@ -795,7 +795,7 @@ Section Fuel.
       assert (B : (fold_right (fun x n => Nat.max (need x) n) O l <= list_sum (map (@length N) (map (to_json ff) l)))%nat).
       { clear W Mk. induction l as [|x r IHr]; [cbn; lia|].
         inversion IH as [|? ? Hx Hr]; inversion Wl; inversion Ml; subst.
-        cbn [fold_right map list_sum]. specialize (IHr Hr ltac:(assumption) ltac:(assumption)).
+        unfold list_sum in *. cbn [fold_right map]. specialize (IHr Hr ltac:(assumption) ltac:(assumption)).
         specialize (Hx ltac:(assumption) ltac:(assumption)). lia. }
       destruct l; cbn [length pred] in *; lia.
     - cbn [need to_json length]. rewrite app_length, jjoin_length, !map_length. cbn [length].
@@ -807,7 +807,7 @@ Section Fuel.
                    <= list_sum (map (@length N) (map member_text (map (fun kv => (esc_string (fst kv), to_json ff (snd kv))) m))))%nat).
       { clear W Mk. induction m as [|x r IHr]; [cbn; lia|].
         inversion IH as [|? ? Hx Hr]; inversion Wm; inversion Mm; subst.
-        cbn [fold_right map list_sum]. specialize (IHr Hr ltac:(assumption) ltac:(assumption)).
+        unfold list_sum in *. cbn [fold_right map]. specialize (IHr Hr ltac:(assumption) ltac:(assumption)).
         specialize (Hx ltac:(assumption) ltac:(assumption)).
         unfold member_text at 1. cbn [fst snd length]. rewrite app_length. cbn [length]. lia. }
       destruct m; cbn [length pred] in *; lia.
@@ -826,3 +826,70 @@ Section Fuel.
   Lemma json_valid_all v : wfb v = true -> marshal_ok v = true -> json_valid (to_json ff v) = true.
   Proof. intros W Mk. unfold json_valid. rewrite json_parse_back by assumption. reflexivity. Qed.
 End Fuel.
+
+(* ------------------------------ valid UTF-8 keys never collide after escaping *)
+Lemma esc_inj s1 s2 : valid_utf8 s1 = true -> valid_utf8 s2 = true ->
+  esc_string s1 = esc_string s2 -> s1 = s2.
+Proof.
+  intros V1 V2 E. pose proof (parse_str_esc s1 []) as P1. pose proof (parse_str_esc s2 []) as P2.
+  rewrite E in P1. rewrite P1 in P2. injection P2 as P2. rewrite !coerce_valid in P2 by assumption. exact P2.
+Qed.
+
+Lemma NoDup_nodup_keys l : NoDup l -> nodup_keys l = true.
+Proof.
+  induction 1 as [|k r Hn _ IH]; [reflexivity|]. cbn [nodup_keys]. rewrite IH, andb_true_r.
+  apply negb_true_iff. destruct (existsb (bytes_eqb k) r) eqn:E; [|reflexivity].
+  apply existsb_exists in E as (y & Hy & Ey). apply bytes_eqb_eq in Ey. subst y. contradiction.
+Qed.
+
+Lemma valid_keys_unique : forall v, wfb v = true -> strings_valid v = true -> esc_keys_unique v = true.
+Proof.
+  induction v as [| | | | | |l IH|m IH|] using value_ind'; intros W V; try reflexivity.
+  - cbn [esc_keys_unique]. apply forallb_forall. intros x Hx. rewrite Forall_forall in IH.
+    cbn [wfb strings_valid] in W, V. rewrite forallb_forall in W, V. apply IH; [exact Hx|apply W; exact Hx|apply V; exact Hx].
+  - cbn [esc_keys_unique]. cbn [strings_valid] in V. rewrite forallb_forall in V.
+    apply andb_true_intro. split.
+    + apply NoDup_nodup_keys. pose proof (wfb_obj_NoDup m W) as ND.
+      clear W IH. induction m as [|[k x] r IHr]; [constructor|]. cbn [map fst] in *.
+      inversion ND as [|? ? Hn NDr]; subst. constructor.
+      * intro Hin. apply in_map_iff in Hin as ([k' x'] & Ek & Hin). cbn [fst] in Ek.
+        assert (Vk : valid_utf8 k = true).
+        { specialize (V (k, x) (or_introl eq_refl)). apply andb_prop in V as [V _]. exact V. }
+        assert (Vk' : valid_utf8 k' = true).
+        { specialize (V (k', x') (or_intror Hin)). apply andb_prop in V as [V _]. exact V. }
+        apply esc_inj in Ek; [|assumption|assumption]. subst k'. apply Hn. apply (in_map fst) in Hin. exact Hin.
+      * apply IHr; [|exact NDr]. intros kv Hkv. apply V. right; exact Hkv.
+    + apply forallb_forall. intros kv Hkv. rewrite Forall_forall in IH.
+      pose proof (wfb_obj_members m W) as Wm. rewrite Forall_forall in Wm.
+      apply IH; [exact Hkv|apply Wm; exact Hkv|]. specialize (V kv Hkv). apply andb_prop in V as [_ V]. exact V.
+Qed.
+
+Lemma json_canonical_valid ff a b : struct_eq a b -> wfb a = true -> wfb b = true ->
+  strings_valid a = true -> strings_valid b = true -> to_json ff a = to_json ff b.
+Proof. intros E Wa Wb Va Vb. apply json_canonical; [exact E|apply valid_keys_unique; assumption|apply valid_keys_unique; assumption]. Qed.
+
+(* the members of every object are written in strictly increasing order of the
+   escaped key text *)
+Lemma to_json_keys_sorted ff m : NoDup (map (fun kv => esc_string (fst kv)) m) ->
+  strictly_sorted (map fst (isort mleb (map (fun kv => (esc_string (fst kv), to_json ff (snd kv))) m))) = true.
+Proof.
+  intro ND. set (L := isort mleb _).
+  assert (Sd : adj_sorted mleb L = true) by (unfold L; rewrite mleb_kleb; apply isort_kleb_sorted).
+  assert (NDL : NoDup (map fst L)).
+  { eapply Permutation_NoDup; [apply Permutation_map, isort_perm|]. rewrite map_map. exact ND. }
+  clearbody L. induction L as [|a r IH]; [reflexivity|]. destruct r as [|b r']; [reflexivity|].
+  change (strictly_sorted (map fst (a :: b :: r')))
+    with ((match lexcmp (fst a) (fst b) with Lt => true | _ => false end) && strictly_sorted (map fst (b :: r'))).
+  cbn [adj_sorted] in Sd. apply andb_prop in Sd as [Sab Sr].
+  cbn [map] in NDL. inversion NDL as [|? ? Hn NDr]; subst.
+  rewrite (IH Sr NDr). rewrite andb_true_r. unfold mleb in Sab.
+  destruct (lexcmp (fst a) (fst b)) eqn:E; [|reflexivity|discriminate].
+  exfalso. apply lexcmp_eq in E. apply Hn. left. symmetry; exact E.
+Qed.
+
+(* markup characters are written as themselves *)
+Lemma esc_ascii_markup c : is_markup c = true -> esc_ascii c = [c].
+Proof.
+  unfold is_markup. intro H. apply orb_prop in H as [H|H]; [apply orb_prop in H as [H|H]|];
+  apply N.eqb_eq in H; subst; reflexivity.
+Qed.
